@@ -218,6 +218,10 @@ http_req_parse_line(nng_http *conn, void *line)
 	}
 	*uri = '\0';
 	uri++;
+	if (method[0] == '\0') {
+		nni_http_set_status(conn, NNG_HTTP_STATUS_BAD_REQUEST, NULL);
+		return (NNG_OK);
+	}
 
 	if ((version = strchr(uri, ' ')) == NULL) {
 		nni_http_set_status(conn, NNG_HTTP_STATUS_BAD_REQUEST, NULL);
